@@ -153,6 +153,25 @@ Section Step.
 
   Lemma reduce_step_M {L} (cls : list (list L)) : fst (reduce_step x k l M cls) = M4.
   Proof. reflexivity. Qed.
+
+  (* the whole step, on the entry function of the input *)
+  Let f1 i j := entry M (sw x k i) j.
+  Let f2 i j := f1 i (sw x l j).
+  Let f3 i j := if (x <? i) && f2 i x then xorb (f2 i j) (f2 x j) else f2 i j.
+  Let f4 i j := if (x <? j) && f3 x j then xorb (f3 i j) (f3 i x) else f3 i j.
+
+  Lemma step_entries {L} (cls : list (list L)) i j : i < rb -> j < cb ->
+    entry (fst (reduce_step x k l M cls)) i j = f4 i j.
+  Proof.
+    intros Hi Hj. rewrite (reduce_step_M cls).
+    rewrite entry_M4 by assumption.
+    rewrite !entry_M3 by assumption.
+    rewrite !entry_M2 by assumption.
+    rewrite !entry_M1. reflexivity.
+  Qed.
+
+  Lemma step_wfm {L} (cls : list (list L)) : wfm rb cb (fst (reduce_step x k l M cls)).
+  Proof. rewrite (reduce_step_M cls). exact wfm_M4. Qed.
 End Step.
 
 (* ---------- the pivot search ---------- *)
@@ -276,7 +295,7 @@ Section BlockStep.
     destruct (x <? i) eqn:E.
     - apply Nat.ltb_lt in E. destruct (f2 i x) eqn:F; simpl.
       + rewrite f2_pivot. simpl. destruct (i =? x) eqn:E'; [apply Nat.eqb_eq in E'; lia|]. reflexivity.
-      + rewrite F. destruct (i =? x) eqn:E'; [apply Nat.eqb_eq in E'; lia|]. reflexivity.
+      + destruct (i =? x) eqn:E'; [apply Nat.eqb_eq in E'; lia|]. reflexivity.
     - apply Nat.ltb_ge in E. simpl. destruct (Nat.eq_dec i x) as [->|Hne].
       + rewrite f2_pivot. now rewrite Nat.eqb_refl.
       + rewrite f2_block by lia. destruct (i =? x) eqn:E'; auto.
